@@ -58,8 +58,12 @@ HInit == PInit /\ t \in 1..Len(Traces) /\ l = 1 /\ bad = <<>>
 
 HStep ==
   /\ l <= Len(Evs)
-  /\ CASE E.e = "setvar" -> SetVariable(E.p, E.name, E.v) /\ bad' = bad
-       [] E.e = "setfn" -> SetFunction(E.p, E.name, E.c) /\ bad' = bad
+  /\ CASE E.e = "setvar" -> IF "raised" \in DOMAIN E      \* registering a value never fails, whatever the value is
+                             THEN st' = st /\ bad' = Append(bad, <<l, "registration_raised">>)
+                             ELSE SetVariable(E.p, E.name, E.v) /\ bad' = bad
+       [] E.e = "setfn" -> IF "raised" \in DOMAIN E
+                           THEN st' = st /\ bad' = Append(bad, <<l, "registration_raised">>)
+                           ELSE SetFunction(E.p, E.name, E.c) /\ bad' = bad
        [] E.e = "listen" -> SetListeners(E.p, E.kind, E.sets) /\ bad' = bad
        [] E.e = "resolve" ->     \* a documented name: some arity reaches a built-in (callFunction event)
             /\ st' = st
